@@ -282,7 +282,7 @@ def build(name, args):
                 v = a['v'][0][0]
                 inputs[refn] = [[sh.EMPTY]] if v is sh.EMPTY else v
             else:
-                refn = 'B%d:%s%d' % (row, 'BCDEF'[cols - 1], row + rows - 1)
+                refn = 'B%d:%s%d' % (row, 'BCDEFGHIJ'[cols - 1], row + rows - 1)
                 arr = np.empty((rows, cols), object)
                 for i, rw in enumerate(a['v']):
                     for j, x in enumerate(rw):
